@@ -1,11 +1,9 @@
 package c04
 
 import (
-	"bytes"
 	"context"
 	"errors"
 	"fmt"
-	"io"
 	"strings"
 
 	ocispec "github.com/opencontainers/image-spec/specs-go/v1"
@@ -19,38 +17,10 @@ import (
 
 // Mount path: the destination implements registry.Mounter. For every blob the double answers
 // "mounted" (content appears without any source read) or "fall back" (it calls getContent, as a
-// registry answering 202 does); MountFrom offers 0, 1 or 2 candidate repositories. These answers
+// registry answering 202 does); MountFrom offers no, one or two candidate repositories, the same one twice, or a list ending in a blank name. These answers
 // are explored as input choices together with the schedules.
 // Oracle: a mounted blob triggers exactly one OnMounted and no PreCopy/PostCopy and is never
 // fetched from the source; a copied blob exactly one PreCopy then one PostCopy and one fetch.
-
-type mountDst struct {
-	Dst
-	src     *memory.Store
-	mounted map[int]int
-	events  *[]string
-	fails   *[]string
-}
-
-func (m *mountDst) Mount(ctx context.Context, desc ocispec.Descriptor, fromRepo string, getContent func() (io.ReadCloser, error)) error {
-	id := m.W.D.Find(desc)
-	nm := m.W.D.Nodes[id].Name
-	if vs.ChooseAt(2, vs.KInput, "mount("+nm+","+fromRepo+")") == 0 {
-		// mounted: the registry links the blob, nothing is read from the source
-		m.W.Do(func() {
-			*m.events = append(*m.events, "mounted-by-registry:"+nm+":"+fromRepo)
-			m.mounted[id]++
-		})
-		return m.Inner.Push(ctx, desc, bytes.NewReader(m.W.D.Nodes[id].Bytes))
-	}
-	rc, err := getContent()
-	if err != nil {
-		return err
-	}
-	defer rc.Close()
-	m.W.Do(func() { *m.events = append(*m.events, "fallback:"+nm+":"+fromRepo) })
-	return m.Dst.Push(ctx, desc, rc)
-}
 
 func mountJobs(th bool) []driver.Job {
 	var out []driver.Job
@@ -60,9 +30,9 @@ func mountJobs(th bool) []driver.Job {
 		default:
 			continue
 		}
-		for _, ncand := range []int{0, 1, 2} {
+		for ncand := range MountCandidates {
 			d, ncand := d, ncand
-			if d.Name == "fanout" && ncand == 2 {
+			if d.Name == "fanout" && ncand >= 2 {
 				continue // 5 blobs x 2 candidates x 2 answers: covered by the smaller shapes
 			}
 			D := 1
@@ -90,9 +60,9 @@ func mountRun(c *driver.Ctx, d *DAG, ncand int) (func(), func(*vs.Result) *drive
 		panic(err)
 	}
 	root := len(d.Nodes) - 1
-	var events, fails []string
+	var events []string
 	src := &SrcTarget{Src: Src{W: w, Inner: srcM}, R: srcM, P: srcM}
-	dst := &mountDst{Dst: Dst{W: w, Inner: dstM}, src: srcM, mounted: map[int]int{}, events: &events, fails: &fails}
+	dst := &MountDst{Dst: Dst{W: w, Inner: dstM}, Mounted: map[int]int{}, Events: &events}
 	cb := func(kind string) func(context.Context, ocispec.Descriptor) error {
 		return func(_ context.Context, desc ocispec.Descriptor) error {
 			vs.Pt(kind)
@@ -102,7 +72,7 @@ func mountRun(c *driver.Ctx, d *DAG, ncand int) (func(), func(*vs.Result) *drive
 	}
 	opts := oras.CopyGraphOptions{Concurrency: 2, PreCopy: cb("pre"), PostCopy: cb("post"), OnCopySkipped: cb("skip"), OnMounted: cb("mounted"),
 		MountFrom: func(ctx context.Context, desc ocispec.Descriptor) ([]string, error) {
-			return []string{"repo/a", "repo/b"}[:ncand], nil
+			return MountCandidates[ncand], nil
 		}}
 	var err error
 	body := func() { err = oras.CopyGraph(context.Background(), src, dst, d.Nodes[root].Desc, opts) }
@@ -133,9 +103,9 @@ func mountRun(c *driver.Ctx, d *DAG, ncand int) (func(), func(*vs.Result) *drive
 		for _, n := range d.Nodes {
 			pre, post, mnt := count("pre:"+n.Name), count("post:"+n.Name), count("mounted:"+n.Name)
 			switch {
-			case dst.mounted[n.ID] > 0:
+			case dst.Mounted[n.ID] > 0:
 				anyMounted = true
-				if dst.mounted[n.ID] > 1 || mnt != 1 || post != 0 || pre != 0 {
+				if dst.Mounted[n.ID] > 1 || mnt != 1 || post != 0 || pre != 0 {
 					return &driver.Fail{Sig: "mount: a mounted blob without exactly one OnMounted (and no PreCopy/PostCopy)", Detail: fmt.Sprintf("%s pre=%d post=%d mounted=%d; %s", n.Name, pre, post, mnt, tr)}
 				}
 				if w.FetchCount[n.ID] != 0 {
@@ -149,7 +119,7 @@ func mountRun(c *driver.Ctx, d *DAG, ncand int) (func(), func(*vs.Result) *drive
 					return &driver.Fail{Sig: "mount: a copied blob was not fetched exactly once", Detail: fmt.Sprintf("%s fetched %d times; %s", n.Name, w.FetchCount[n.ID], tr)}
 				}
 			}
-			if w.PushDone[n.ID]+dst.mounted[n.ID] > 1 {
+			if w.PushDone[n.ID]+dst.Mounted[n.ID] > 1 {
 				return &driver.Fail{Sig: "mount: node transferred more than once", Detail: n.Name + "; " + tr}
 			}
 		}
